@@ -77,6 +77,7 @@ impl RK4 {
         // Create mutable copies for the solver to mutate
         let mut x = x0;
         let mut y = y0.to_vec();
+        let mut h = h;
 
         // --- Input Validation ---
         
@@ -149,6 +150,7 @@ impl RK4 {
             // Adjust last step so we land exactly on xend
             let mut last = false;
             if (x + 1.01 * h - xend) * h.signum() > 0.0 {
+                h = xend - x;
                 last = true;
             }
 
